@@ -54,15 +54,43 @@ CHECK_RE = re.compile(r'^Check (\d+): (\S+)\n\s+- Status: (\w+)\n\s+- Descriptio
 
 
 def parse_output(out):
-    """Split the output of a multi-harness run into per-harness records."""
+    """Split the output of a (possibly parallel, interleaved) multi-harness run into per-harness records."""
+    texts = {}      # harness -> accumulated text
+    stubs = {}      # harness -> list of stub lines
+    thread_h = {}   # thread id -> current harness
+    cur = None
+    for line in out.split('\n'):
+        m = re.match(r'^(?:Thread (\d+): )?Checking harness (\S+?)\.\.\.\s*$', line)
+        if m:
+            t = m.group(1) or '0'
+            thread_h[t] = m.group(2)
+            texts.setdefault(m.group(2), '')
+            stubs.setdefault(m.group(2), [])
+            cur = m.group(2)
+            continue
+        m = re.match(r'^Thread (\d+): ?(.*)$', line)
+        if m:
+            cur = thread_h.get(m.group(1))
+            rest = m.group(2)
+            if cur is not None:
+                ms = re.match(r'\s*- Stub: (.*)', rest)
+                if ms:
+                    stubs[cur].append(ms.group(1))
+                else:
+                    texts[cur] += rest + '\n'
+            continue
+        if line.startswith('Manual Harness Summary') or line.startswith('Complete - '):
+            cur = None
+            continue
+        if cur is not None:
+            ms = re.match(r'\s*- Stub: (.*)', line)
+            if ms:
+                stubs[cur].append(ms.group(1))
+            else:
+                texts[cur] += line + '\n'
     recs = {}
-    # sections start with "Checking harness <name>..."
-    parts = re.split(r'(?m)^(?:Thread \d+: )?Checking harness (\S+?)\.\.\.\s*$', out)
-    # parts[0] preamble, then name, text, name, text ...
-    for i in range(1, len(parts), 2):
-        name = parts[i]
-        text = parts[i + 1]
-        rec = dict(name=name, text=text)
+    for name, text in texts.items():
+        rec = dict(name=name, text=text, stubs=stubs.get(name, []))
         m = re.search(r'VERIFICATION:- (SUCCESSFUL|FAILED)', text)
         rec['verdict'] = m.group(1) if m else None
         m = re.search(r'\*\* (\d+) of (\d+) failed', text)
@@ -80,16 +108,21 @@ def parse_output(out):
         for cm in CHECK_RE.finditer(text):
             if cm.group(3) in ('FAILURE',):
                 rec['failed_checks'].append(dict(check=cm.group(2), description=cm.group(4), location=cm.group(5)))
-        fm = re.search(r'Failed Checks:(.*?)(?:\n\n|\Z)', text, re.S)
+        # terse format: "Failed Checks: <description>\n File: ..."
+        for fm in re.finditer(r'Failed Checks: (.*)\n\s*File: "([^"]*)", line (\d+), in (\S+)', text):
+            rec['failed_checks'].append(dict(check='', description=fm.group(1), location=f'{fm.group(2)}:{fm.group(3)} in {fm.group(4)}'))
+        fm = re.search(r'Failed Checks:(.*?)(?:\n\n\n|VERIFICATION:-|\Z)', text, re.S)
         if fm:
             rec['failed_summary'] = fm.group(0).strip()[:3000]
-        rec['unwind_fail'] = 'unwinding assertion' in text and re.search(r'unwinding assertion.*\n.*', text) is not None and \
-            bool(re.search(r'Status: FAILURE\n\s+- Description: "unwinding assertion', text))
-        rec['unsupported'] = bool(re.search(r'Status: FAILURE\n\s+- Description: ".*(is not currently supported by Kani|unsupported)', text))
+        descs = [c['description'] for c in rec['failed_checks']]
+        rec['unwind_fail'] = any('unwinding assertion' in d for d in descs)
+        rec['unsupported'] = any(('not currently supported' in d or 'unsupported' in d.lower()) for d in descs)
         rec['unsat_covers'] = re.findall(r'Status: UNSATISFIABLE\n\s+- Description: "(.*)"', text)
+        if rec.get('covers') is not None and rec.get('covers_sat') is not None and rec['covers_sat'] < rec['covers'] and not rec['unsat_covers']:
+            rec['unsat_covers'] = [f"{rec['covers'] - rec['covers_sat']} of {rec['covers']} cover properties not satisfied"]
         recs[name.split('::')[-1]] = rec
-    stubs = re.findall(r'- Stub: (.*)', out)
-    return recs, stubs
+    allstubs = [x for v in stubs.values() for x in v]
+    return recs, allstubs
 
 
 def run_group(mode, specs, repo, tier):
@@ -162,7 +195,7 @@ def run_harnesses(kspec, repo, res, pid, tier):
             else:
                 ob['time'] = rec.get('time')
                 ob['checks'] = rec.get('checks')
-                missing = [st for st in s.get('stubs', []) if not any(st in x for x in g['stubs'])]
+                missing = [st for st in s.get('stubs', []) if not any(st.replace(' ', '') in x.replace(' ', '') for x in rec.get('stubs', []))]
                 if rec['verdict'] == 'SUCCESSFUL':
                     if missing:
                         ob['status'] = 'undecided'
@@ -198,3 +231,31 @@ def run_harnesses(kspec, repo, res, pid, tier):
             if s.get('fn'):
                 res.functions.append(dict(id=oid, engine='kani', fn=s['fn'], harness=s['harness'], mode=mode))
         res.solver_time[f'kani:{mode}'] = round(g['wall'], 1)
+
+
+def counterexample(ob, repo):
+    """Re-run one failing harness with concrete playback and return the concrete values CBMC assigned
+    to the harness's `kani::any()` draws, in draw order (inputs are drawn first, DESIGN 2.5)."""
+    env = _env(repo)
+    mode = ob['mode']
+    flags = ['-Z', 'stubbing', '-Z', 'function-contracts', '-Z', 'concrete-playback', '--concrete-playback=print']
+    if mode == 'ext':
+        cwd = prepare_ext(repo)
+        env['CARGO_TARGET_DIR'] = os.path.join(BUILD, 'kani-target-ext')
+        cmd = ['cargo', 'kani']
+    else:
+        cwd = repo
+        env['CARGO_TARGET_DIR'] = os.path.join(BUILD, 'kani-target-ws')
+        cmd = ['cargo', 'kani', '-p', mode.split(':', 1)[1]]
+    cmd += flags + list(ob.get('flags', [])) + ['--harness', ob['harness'], '--output-format', 'terse']
+    try:
+        p = subprocess.run(cmd, cwd=cwd, env=env, capture_output=True, text=True, timeout=ob.get('timeout', 1800) + 600)
+    except subprocess.TimeoutExpired:
+        return None
+    out = p.stdout
+    m = re.search(r'let concrete_vals: Vec<Vec<u8>> = vec!\[(.*?)\];', out, re.S)
+    if not m:
+        return None
+    vals = re.findall(r'//\s*(.+)\n\s*vec!\[([^\]]*)\]', m.group(1))
+    return dict(values=[v[0].strip() for v in vals], bytes=[[int(x) for x in v[1].split(',') if x.strip()] for v in vals],
+                how='CBMC counterexample for the real crate compiled by Kani, printed by -Z concrete-playback; values listed in kani::any() draw order')
